@@ -87,7 +87,7 @@ type CaseResult struct {
 	rootSeq [][]byte
 	execTbl []string
 	// statistics
-	BadCrash   bool // some crash landed at write index 1 of an application
+	BadCrash   bool // some crash landed at write index 1 of an application (before f41125c: after the state write, before the block save)
 	StaleFiles bool // a crash happened after a clean restart had written non-empty cache files
 	Applied    int
 }
@@ -293,7 +293,7 @@ func (rn *runner) oracleEnd() {
 	if m < base {
 		m = base
 	}
-	if r.BadCrash || rn.n.BootErr != nil || rn.n.Dead {
+	if rn.n.BootErr != nil || rn.n.Dead {
 		return
 	}
 	if uint64(m) > h+1-c.Initial {
@@ -383,8 +383,10 @@ func RunCase(t *testing.T, c *Chain, spec ChainSpec, hist []Item, tmp string) *C
 				if rn.files {
 					res.StaleFiles = true
 				}
+				e0 := len(n.Exec.Calls)
 				n.CrashTo(rn.logPos) // a process starts on the current image ...
 				bw := append([]crashds.Write{}, n.DS.Log...)
+				n.Exec.Calls = n.Exec.Calls[:e0] // ... its execution calls are not those of a completed step
 				k := it.K
 				if k > len(bw) {
 					k = len(bw)
